@@ -1027,14 +1027,18 @@ class TE:
                 raise AnalysisError(f"{mod}:{e.lineno} type() of {a!r}")
             if n in ("classmethod", "staticmethod", "property"):
                 return args[0]
+            if kw and n not in ("dict", "int", "max", "min", "sum", "str", "bytes") and not (n == "sorted" and set(kw) <= {"reverse"}) \
+                    and not (n == "enumerate" and set(kw) <= {"start"}):
+                # keyword arguments this evaluator does not model (sorted(key=...)): never evaluate to a wrong constant
+                raise AnalysisError(f"{mod}:{e.lineno} {n}() with keyword arguments {sorted(kw)} is not evaluated at module level")
             if n in ("frozenset", "set", "list", "tuple", "sorted", "enumerate", "reversed"):
                 it = list(self.iterate(args[0])) if args else []
                 if n == "enumerate":
-                    return list(enumerate(it, *args[1:]))
+                    return list(enumerate(it, *args[1:], **kw))
                 if n == "reversed":
                     return list(reversed(it))
                 if n == "sorted":
-                    return sorted(it)
+                    return sorted(it, **kw)
                 return {"frozenset": frozenset, "set": set, "list": list, "tuple": tuple}[n](it)
             if n == "zip":
                 return list(zip(*[self.iterate(a) for a in args]))
